@@ -3,6 +3,20 @@ From Coq Require Import List Arith Bool PeanoNat.
 From PV Require Import Base.Semiring Base.Ravel Base.FinSum Base.RefFactor C02.Dsr C02.Model.
 Import ListNotations.
 
+(* ---- boolean check that (edges, adjacency) is a tree: ProofsTree.tree_shape_chk_sound ---------------- *)
+Definition canon (e : nat * nat) : nat * nat := if fst e <=? snd e then e else (snd e, fst e).
+Definition adjacentb (es : list (nat * nat)) (x y : nat) : bool :=
+  existsb (fun e => ((fst e =? x) && (snd e =? y)) || ((fst e =? y) && (snd e =? x))) es.
+Definition pair_code (n : nat) (e : nat * nat) : nat := fst (canon e) * n + snd (canon e).
+Definition tree_shape_chk (n : nat) (es : list (nat * nat)) (adj : list (list nat)) : bool :=
+  (0 <? n) && (length adj =? n) &&
+  forallb (fun x => forallb (fun y => adjacentb es x y) (nth x adj [])) (seq 0 n) &&
+  forallb (fun e => (fst e <? n) && (snd e <? n) && negb (fst e =? snd e) &&
+                    memn (snd e) (nth (fst e) adj []) && memn (fst e) (nth (snd e) adj [])) es &&
+  nodupb (map (pair_code n) es) && (length es =? n - 1) &&
+  forallb (fun x => memn x (0 :: map snd (bfs_edges adj 0))) (seq 0 n).
+
+
 Section Cert.
 Variable D : dsr.
 Variable card : var -> nat.
@@ -12,14 +26,14 @@ Definition edges_of_pairs (t : ctree D) (pcs : list (nat * nat)) : option (list 
 Definition covers (t : ctree D) (sub : list nat) (vs : list var) : bool :=
   forallb (fun i => negb (existsb (fun v => memv v (clq D t i)) vs) || memn i sub) (all_cl D t).
 (* the complement of the subtree peels away leaving exactly the subtree's cliques; the traversal visits
-   every remaining clique once and uses every remaining edge once; evidence variables live only in
-   the subtree, evidence states are in range, the eliminated variables are listed once *)
+   every remaining clique once and uses every remaining edge once; query and evidence variables live only
+   in the subtree, evidence states are in range, the eliminated variables are listed once *)
 Definition query_cert (t : ctree D) (Q : list var) (ev : list (var * nat)) (r : qresult D) : bool :=
   match peel_to D t (q_sub D r), edges_of_pairs t (q_pairs D r) with
   | Some (_, erem), Some ks =>
       same_set erem ks && nodupb ks && nodupb (q_root D r :: map snd (q_pairs D r)) &&
       same_set (q_root D r :: map snd (q_pairs D r)) (q_sub D r) &&
-      covers t (q_sub D r) (map fst ev) &&
+      covers t (q_sub D r) (Q ++ map fst ev) &&
       forallb (fun e => snd e <? card (fst e)) ev &&
       nodupb (query_elim D t (q_sub D r) Q ev) &&
       forallb (fun i => i <? length (cliques D t)) (q_sub D r)
